@@ -5,6 +5,7 @@
 package types
 
 //@ func GetDiscountByTime
+//@ vars types.GetDiscountByTime: pricing=github.com/irismod/service/types.Pricing#0 time=time.Time#0 p=github.com/irismod/service/types.PromotionByTime#0
 //@ props C07
 //@ theory keys pricing
 //@ loop 0 invariant seen: 0 <= iter && iter <= len(pricing.PromotionsByTime)
@@ -12,6 +13,7 @@ package types
 //@ ensures result_is_dT: result == discountByTime(pricing, time)
 
 //@ func GetDiscountByVolume
+//@ vars types.GetDiscountByVolume: pricing=github.com/irismod/service/types.Pricing#0 volume=uint64#0 promotionsByVol=[]github.com/irismod/service/types.PromotionByVolume#0 i=int#0 p=github.com/irismod/service/types.PromotionByVolume#0
 //@ props C07
 //@ theory keys pricing
 //@ loop 0 invariant seen: 0 <= iter && iter <= len(pricing.PromotionsByVolume)
@@ -20,6 +22,7 @@ package types
 //@ ensures result_is_dV: result == discountByVolume(pricing, volume)
 
 //@ func ValidatePricing
+//@ vars types.ValidatePricing: pricing=github.com/irismod/service/types.Pricing#0 i=int#0 p=github.com/irismod/service/types.PromotionByTime#0 i=int#1 p=github.com/irismod/service/types.PromotionByVolume#0
 //@ props C07 C15
 //@ theory keys pricing
 //@ loop 0 invariant seen: 0 <= iter && iter <= len(pricing.PromotionsByTime)
@@ -31,156 +34,187 @@ package types
 
 // ---------------------------------------------------------------- store keys (layer K): every builder returns exactly kbytes(<Key>) / pbytes(<Prefix>)
 //@ func GetServiceDefinitionKey
+//@ vars types.GetServiceDefinitionKey: serviceName=string#0
 //@ props C18 C15
 //@ theory coins keys bytes
 //@ ensures exact: result == kbytes(KDef(serviceName))
 
 //@ func GetServiceBindingKey
+//@ vars types.GetServiceBindingKey: serviceName=string#0 provider=github.com/cosmos/cosmos-sdk/types.AccAddress#0
 //@ props C18 C15
 //@ theory coins keys bytes
 //@ ensures exact: result == kbytes(KBind(serviceName, provider))
 
 //@ func GetOwnerServiceBindingKey
+//@ vars types.GetOwnerServiceBindingKey: owner=github.com/cosmos/cosmos-sdk/types.AccAddress#0 serviceName=string#0 provider=github.com/cosmos/cosmos-sdk/types.AccAddress#1
 //@ props C18 C15
 //@ theory coins keys bytes
 //@ ensures exact: result == kbytes(KOwnerBind(owner, serviceName, provider))
 
 //@ func GetOwnerKey
+//@ vars types.GetOwnerKey: provider=github.com/cosmos/cosmos-sdk/types.AccAddress#0
 //@ props C18 C15
 //@ theory coins keys bytes
 //@ ensures exact: result == kbytes(KOwner(provider))
 
 //@ func GetOwnerProviderKey
+//@ vars types.GetOwnerProviderKey: owner=github.com/cosmos/cosmos-sdk/types.AccAddress#0 provider=github.com/cosmos/cosmos-sdk/types.AccAddress#1
 //@ props C18 C15
 //@ theory coins keys bytes
 //@ ensures exact: result == kbytes(KOwnerProv(owner, provider))
 
 //@ func GetPricingKey
+//@ vars types.GetPricingKey: serviceName=string#0 provider=github.com/cosmos/cosmos-sdk/types.AccAddress#0
 //@ props C18 C15
 //@ theory coins keys bytes
 //@ ensures exact: result == kbytes(KPricing(serviceName, provider))
 
 //@ func GetWithdrawAddrKey
+//@ vars types.GetWithdrawAddrKey: provider=github.com/cosmos/cosmos-sdk/types.AccAddress#0
 //@ props C18 C13
 //@ theory coins keys bytes
 //@ ensures exact: result == kbytes(KWAddr(provider))
 
 //@ func GetBindingsSubspace
+//@ vars types.GetBindingsSubspace: serviceName=string#0
 //@ props C18 C15
 //@ theory coins keys bytes
 //@ ensures exact: result == pbytes(PBindSvc(serviceName))
 
 //@ func GetOwnerBindingsSubspace
+//@ vars types.GetOwnerBindingsSubspace: owner=github.com/cosmos/cosmos-sdk/types.AccAddress#0 serviceName=string#0
 //@ props C18 C15
 //@ theory coins keys bytes
 //@ ensures exact: result == pbytes(POwnerBind(owner, serviceName))
 
 //@ func GetOwnerProvidersSubspace
+//@ vars types.GetOwnerProvidersSubspace: owner=github.com/cosmos/cosmos-sdk/types.AccAddress#0
 //@ props C18 C13
 //@ theory coins keys bytes
 //@ ensures exact: result == pbytes(POwnerProv(owner))
 
 //@ func GetRequestContextKey
+//@ vars types.GetRequestContextKey: requestContextID=[]byte#0
 //@ props C18
 //@ theory coins keys bytes
 //@ ensures exact: result == kbytes(KCtx(requestContextID))
 
 //@ func GetExpiredRequestBatchKey
+//@ vars types.GetExpiredRequestBatchKey: requestContextID=[]byte#0 batchExpirationHeight=int64#0 reqBatchExpiration=[]byte#1
 //@ props C18 C11
 //@ theory coins keys bytes
 //@ ensures exact: result == kbytes(KExpQ(batchExpirationHeight, requestContextID))
 
 //@ func GetNewRequestBatchKey
+//@ vars types.GetNewRequestBatchKey: requestContextID=[]byte#0 requestBatchHeight=int64#0 newBatchRequest=[]byte#1
 //@ props C18 C11
 //@ theory coins keys bytes
 //@ ensures exact: result == kbytes(KNewQ(requestBatchHeight, requestContextID))
 
 //@ func GetExpiredRequestBatchSubspace
+//@ vars types.GetExpiredRequestBatchSubspace: batchExpirationHeight=int64#0
 //@ props C18 C11
 //@ theory coins keys bytes
 //@ ensures exact: result == pbytes(PExpQ(batchExpirationHeight))
 
 //@ func GetNewRequestBatchSubspace
+//@ vars types.GetNewRequestBatchSubspace: requestBatchHeight=int64#0
 //@ props C18 C11
 //@ theory coins keys bytes
 //@ ensures exact: result == pbytes(PNewQ(requestBatchHeight))
 
 //@ func GetExpiredRequestBatchHeightKey
+//@ vars types.GetExpiredRequestBatchHeightKey: requestContextID=[]byte#0
 //@ props C18 C11
 //@ theory coins keys bytes
 //@ ensures exact: result == kbytes(KExpH(requestContextID))
 
 //@ func GetNewRequestBatchHeightKey
+//@ vars types.GetNewRequestBatchHeightKey: requestContextID=[]byte#0
 //@ props C18 C11
 //@ theory coins keys bytes
 //@ ensures exact: result == kbytes(KNewH(requestContextID))
 
 //@ func GetRequestKey
+//@ vars types.GetRequestKey: requestID=[]byte#0
 //@ props C18
 //@ theory coins keys bytes
 //@ ensures exact: result == kbytes(KReq(requestID))
 
 //@ func GetRequestSubspaceByReqCtx
+//@ vars types.GetRequestSubspaceByReqCtx: requestContextID=[]byte#0 batchCounter=uint64#0
 //@ props C18 C16
 //@ theory coins keys bytes
 //@ ensures exact: result == pbytes(PReqByCtx(requestContextID, batchCounter))
 
 //@ func GetActiveRequestKey
+//@ vars types.GetActiveRequestKey: serviceName=string#0 provider=github.com/cosmos/cosmos-sdk/types.AccAddress#0 expirationHeight=int64#0 requestID=[]byte#0 activeRequest=[]byte#1
 //@ props C18 C16
 //@ theory coins keys bytes
 //@ ensures exact: result == kbytes(KActB(serviceName, provider, expirationHeight, requestID))
 
 //@ func GetActiveRequestSubspace
+//@ vars types.GetActiveRequestSubspace: serviceName=string#0 provider=github.com/cosmos/cosmos-sdk/types.AccAddress#0
 //@ props C18 C17
 //@ theory coins keys bytes
 //@ ensures exact: result == pbytes(PActBind(serviceName, provider))
 
 //@ func GetActiveRequestKeyByID
+//@ vars types.GetActiveRequestKeyByID: requestID=[]byte#0
 //@ props C18 C16
 //@ theory coins keys bytes
 //@ ensures exact: result == kbytes(KActID(requestID))
 
 //@ func GetActiveRequestSubspaceByReqCtx
+//@ vars types.GetActiveRequestSubspaceByReqCtx: requestContextID=[]byte#0 batchCounter=uint64#0
 //@ props C18 C16
 //@ theory coins keys bytes
 //@ ensures exact: result == pbytes(PActByCtx(requestContextID, batchCounter))
 
 //@ func GetRequestVolumeKey
+//@ vars types.GetRequestVolumeKey: consumer=github.com/cosmos/cosmos-sdk/types.AccAddress#0 serviceName=string#0 provider=github.com/cosmos/cosmos-sdk/types.AccAddress#1
 //@ props C18 C07
 //@ theory coins keys bytes
 //@ ensures exact: result == kbytes(KVol(consumer, serviceName, provider))
 
 //@ func GetResponseKey
+//@ vars types.GetResponseKey: requestID=[]byte#0
 //@ props C18
 //@ theory coins keys bytes
 //@ ensures exact: result == kbytes(KResp(requestID))
 
 //@ func GetResponseSubspaceByReqCtx
+//@ vars types.GetResponseSubspaceByReqCtx: requestContextID=[]byte#0 batchCounter=uint64#0
 //@ props C18 C16
 //@ theory coins keys bytes
 //@ ensures exact: result == pbytes(PRespByCtx(requestContextID, batchCounter))
 
 //@ func GetEarnedFeesKey
+//@ vars types.GetEarnedFeesKey: provider=github.com/cosmos/cosmos-sdk/types.AccAddress#0 denom=string#0
 //@ props C18 C13
 //@ theory coins keys bytes
 //@ ensures exact: result == kbytes(KEarned(provider, denom))
 
 //@ func GetEarnedFeesSubspace
+//@ vars types.GetEarnedFeesSubspace: provider=github.com/cosmos/cosmos-sdk/types.AccAddress#0
 //@ props C18 C13
 //@ theory coins keys bytes
 //@ ensures exact: result == pbytes(PEarned(provider))
 
 //@ func GetOwnerEarnedFeesKey
+//@ vars types.GetOwnerEarnedFeesKey: owner=github.com/cosmos/cosmos-sdk/types.AccAddress#0 denom=string#0
 //@ props C18 C13
 //@ theory coins keys bytes
 //@ ensures exact: result == kbytes(KOwnerEarned(owner))
 
 //@ func GetOwnerEarnedFeesSubspace
+//@ vars types.GetOwnerEarnedFeesSubspace: owner=github.com/cosmos/cosmos-sdk/types.AccAddress#0
 //@ props C18 C13
 //@ theory coins keys bytes
 //@ ensures exact: result == pbytes(POwnerEarned(owner))
 
 //@ func getStringsKey
+//@ vars types.getStringsKey: ss=[]string#0 result=[]byte#0 s=string#0
 //@ props C18 C15
 //@ theory coins keys bytes
 //@ loop 0 invariant seen: 0 <= iter && iter <= len(ss)
@@ -188,48 +222,59 @@ package types
 //@ ensures exact: result == strsKey(ss)
 
 //@ func ValidateRequestContextUpdating
+//@ vars types.ValidateRequestContextUpdating: providers=[]github.com/cosmos/cosmos-sdk/types.AccAddress#0 serviceFeeCap=github.com/cosmos/cosmos-sdk/types.Coins#0 timeout=int64#0 repeatedFrequency=uint64#0 repeatedTotal=int64#1 err=error#0 err=error#1
 //@ props C09 C10 C18
 //@ ensures err == NoErr ==> timeout >= 0 && repeatedTotal >= -1 && len(providers) <= 10 &&
 //@      (timeout != 0 && repeatedFrequency != 0 ==> repeatedFrequency >= timeout)
 
 //@ func ValidateProvidersCanEmpty
+//@ vars types.ValidateProvidersCanEmpty: providers=[]github.com/cosmos/cosmos-sdk/types.AccAddress#0 err=error#0
 //@ props C18 C09
 //@ ensures at_most_ten: err == NoErr ==> len(providers) <= 10
 
 //@ func ValidateProvidersNoEmpty
+//@ vars types.ValidateProvidersNoEmpty: providers=[]github.com/cosmos/cosmos-sdk/types.AccAddress#0 err=error#0
 //@ props C18 C09
 //@ ensures between_one_and_ten: err == NoErr ==> 0 < len(providers) && len(providers) <= 10
 
 // pure helpers whose result is not used by any property: nothing is assumed about them except that they touch no module state
 //@ func checkDuplicateProviders
+//@ vars types.checkDuplicateProviders: providers=[]github.com/cosmos/cosmos-sdk/types.AccAddress#0 providerArr=[]string#0 i=int#0 provider=github.com/cosmos/cosmos-sdk/types.AccAddress#0
 //@ trusted
 
 //@ func ValidateServiceName
+//@ vars types.ValidateServiceName: name=string#0
 //@ trusted
 
 //@ func ValidateInput
+//@ vars types.ValidateInput: input=string#0
 //@ trusted
 
 //@ func ValidateServiceFeeCap
+//@ vars types.ValidateServiceFeeCap: serviceFeeCap=github.com/cosmos/cosmos-sdk/types.Coins#0
 //@ trusted
 
 // ---------------------------------------------------------------- identifiers (C18); byte-level contracts are in the lemmas of layer K
 //@ func GenerateRequestID
+//@ vars types.GenerateRequestID: requestContextID=github.com/tendermint/tendermint/libs/bytes.HexBytes#0 requestContextBatchCounter=uint64#0 requestHeight=int64#0 batchRequestIndex=int16#0 contextID=[]byte#0 bz=[]byte#1
 //@ props C18
 //@ theory coins keys bytes
 //@ ensures [C18] exact_layout: result == mkRID(requestContextID, requestContextBatchCounter, requestHeight, batchRequestIndex)
 
 //@ func GenerateRequestContextID
+//@ vars types.GenerateRequestContextID: txHash=[]byte#0 msgIndex=int64#0 bz=[]byte#1
 //@ props C18
 //@ theory coins keys bytes
 //@ ensures [C18] exact_layout: result == mkCtxID(txHash, msgIndex)
 
 //@ func ValidateRequest
+//@ vars types.ValidateRequest: serviceName=string#0 serviceFeeCap=github.com/cosmos/cosmos-sdk/types.Coins#0 providers=[]github.com/cosmos/cosmos-sdk/types.AccAddress#0 input=string#1 timeout=int64#0 repeated=bool#0 repeatedFrequency=uint64#0 repeatedTotal=int64#1 err=error#0 err=error#1 err=error#2 err=error#3
 //@ props C10 C09 C18
 //@ ensures err == NoErr ==> timeout > 0 && len(providers) > 0 && len(providers) <= 10 && (repeated ==> (repeatedFrequency == 0 || repeatedFrequency >= timeout) && (repeatedTotal == -1 || repeatedTotal >= 1))
 
 // ---------------------------------------------------------------- genesis validation (C19)
 //@ func ValidateGenesis
+//@ vars types.ValidateGenesis: data=github.com/irismod/service/types.GenesisState#0 err=error#0 definition=github.com/irismod/service/types.ServiceDefinition#0 err=error#1 binding=github.com/irismod/service/types.ServiceBinding#0 err=error#2 providerAddressStr=string#0 err=error#3 requestContextID=string#1 requestContext=*github.com/irismod/service/types.RequestContext#0 err=error#4 err=error#5
 //@ props C19
 //@ loop 0 invariant seen: 0 <= iter && iter <= len(data.Definitions)
 //@ loop 1 invariant seen: 0 <= iter && iter <= len(data.Bindings)
@@ -241,13 +286,87 @@ package types
 //@      mapGet_Map_Str_RequestContext(data.RequestContexts, k).State == 1 && mapGet_Map_Str_RequestContext(data.RequestContexts, k).BatchState == 1)
 
 //@ func SplitRequestContextID
+//@ vars types.SplitRequestContextID: contextID=github.com/tendermint/tendermint/libs/bytes.HexBytes#0 txHash=github.com/tendermint/tendermint/libs/bytes.HexBytes#1 msgIndex=int64#0
 //@ props C18
 //@ theory coins keys bytes bat
 //@ ensures [C18] fixed_length: (err == NoErr) <==> len(contextID) == 40
 //@ ensures [C18] decodes_hash_and_index: err == NoErr ==> result0 == cidHash(contextID) && result1 == cidIndex(contextID)
 
 //@ func SplitRequestID
+//@ vars types.SplitRequestID: requestID=github.com/tendermint/tendermint/libs/bytes.HexBytes#0 contextID=github.com/tendermint/tendermint/libs/bytes.HexBytes#1 batchCounter=uint64#0 requestHeight=int64#0 batchRequestIndex=int16#0
 //@ props C18
 //@ theory coins keys bytes bat
 //@ ensures [C18] fixed_length: (err == NoErr) <==> len(requestID) == 58
 //@ ensures [C18] decodes_context_batch_height_index: err == NoErr ==> result0 == ridCtx(requestID) && result1 == ridBatch(requestID) && result2 == ridHeight(requestID) && result3 == ridIndex(requestID)
+
+// ---------------------------------------------------------------- stateless validation (A2): what ValidateBasic establishes for the handlers
+// The SDK runs ValidateBasic before routing a message; the facts the handler contracts require under the label a2_validated are proved here
+// from the bodies of the ValidateBasic methods (helpers that contribute nothing to those facts are assumed pure, with no postcondition).
+//@ func ValidateServiceDeposit
+//@ vars types.ValidateServiceDeposit: deposit=github.com/cosmos/cosmos-sdk/types.Coins#0
+//@ props C20 C03
+//@ ensures no_negative_amount: err == NoErr ==> (forall d Str :: {amt(deposit, d)} amt(deposit, d) >= 0)
+
+//@ func ValidateWithdrawAddress
+//@ vars types.ValidateWithdrawAddress: withdrawAddress=github.com/cosmos/cosmos-sdk/types.AccAddress#0
+//@ props C20 C13
+//@ ensures present: err == NoErr ==> len(withdrawAddress) > 0
+
+//@ func (MsgBindService).ValidateBasic
+//@ vars (types.MsgBindService).ValidateBasic: msg=github.com/irismod/service/types.MsgBindService#0 err=error#0 err=error#1 err=error#2 err=error#3 err=error#4 err=error#5
+//@ props C20 C03
+//@ ensures [C20,C03] deposit_has_no_negative_amount: err == NoErr ==> (forall d Str :: {amt(msg.Deposit, d)} amt(msg.Deposit, d) >= 0)
+
+//@ func (MsgUpdateServiceBinding).ValidateBasic
+//@ vars (types.MsgUpdateServiceBinding).ValidateBasic: msg=github.com/irismod/service/types.MsgUpdateServiceBinding#0 err=error#0 err=error#1 err=error#2 err=error#3 err=error#4
+//@ props C20 C03
+//@ ensures [C20,C03] deposit_has_no_negative_amount: err == NoErr ==> (forall d Str :: {amt(msg.Deposit, d)} amt(msg.Deposit, d) >= 0)
+
+//@ func (MsgEnableServiceBinding).ValidateBasic
+//@ vars (types.MsgEnableServiceBinding).ValidateBasic: msg=github.com/irismod/service/types.MsgEnableServiceBinding#0 err=error#0 err=error#1 err=error#2 err=error#3
+//@ props C20 C03
+//@ ensures [C20,C03] deposit_has_no_negative_amount: err == NoErr ==> (forall d Str :: {amt(msg.Deposit, d)} amt(msg.Deposit, d) >= 0)
+
+//@ func (MsgSetWithdrawAddress).ValidateBasic
+//@ vars (types.MsgSetWithdrawAddress).ValidateBasic: msg=github.com/irismod/service/types.MsgSetWithdrawAddress#0 err=error#0
+//@ props C20 C13
+//@ ensures [C20,C13] withdrawal_address_present: err == NoErr ==> len(msg.WithdrawAddress) > 0
+
+//@ func (MsgUpdateRequestContext).ValidateBasic
+//@ vars (types.MsgUpdateRequestContext).ValidateBasic: msg=github.com/irismod/service/types.MsgUpdateRequestContext#0 err=error#0 err=error#1
+//@ props C20 C09 C18
+//@ ensures [C20,C09,C18] timeout_not_negative_at_most_ten_providers: err == NoErr ==> msg.Timeout >= 0 && len(msg.Providers) <= 10
+
+//@ func (MsgCallService).ValidateBasic
+//@ vars (types.MsgCallService).ValidateBasic: msg=github.com/irismod/service/types.MsgCallService#0 err=error#0
+//@ props C20 C10 C18
+//@ ensures [C20,C10,C18] request_parameters_validated: err == NoErr ==> msg.Timeout > 0 && 0 < len(msg.Providers) && len(msg.Providers) <= 10 &&
+//@      (msg.Repeated ==> (msg.RepeatedFrequency == 0 || msg.RepeatedFrequency >= msg.Timeout) && (msg.RepeatedTotal == -1 || msg.RepeatedTotal >= 1))
+
+//@ func ValidateProvider
+//@ vars types.ValidateProvider: provider=github.com/cosmos/cosmos-sdk/types.AccAddress#0
+//@ trusted
+
+//@ func ValidateOwner
+//@ vars types.ValidateOwner: owner=github.com/cosmos/cosmos-sdk/types.AccAddress#0
+//@ trusted
+
+//@ func ValidateConsumer
+//@ vars types.ValidateConsumer: consumer=github.com/cosmos/cosmos-sdk/types.AccAddress#0
+//@ trusted
+
+//@ func ValidateQoS
+//@ vars types.ValidateQoS: qos=uint64#0
+//@ trusted
+
+//@ func ValidateOptions
+//@ vars types.ValidateOptions: options=string#0
+//@ trusted
+
+//@ func ValidateBindingPricing
+//@ vars types.ValidateBindingPricing: pricing=string#0 err=error#0
+//@ trusted
+
+//@ func ValidateContextID
+//@ vars types.ValidateContextID: contextID=[]byte#0
+//@ trusted
